@@ -22,6 +22,15 @@ Theorem C06_qos_generated_is_model :
 Proof. exact generated_is_model. Qed.
 Print Assumptions C06_qos_generated_is_model.
 
+(* Atomicity the model assumes (one step per call): the translator reads from qos.go that Inc, Dec, Release and
+   Copy run their whole body under ONE acquisition of the window's lock (Lock(); defer Unlock() first, no other
+   lock traffic inside).  A body that tests under the lock, releases it and charges under a second acquisition is
+   a different function (two consumers can both take the last slot). *)
+Theorem C06_generated_qos_atomic :
+  qos_inc_locked = true /\ qos_dec_locked = true /\ qos_release_locked = true /\ qos_copy_locked = true.
+Proof. repeat split; reflexivity. Qed.
+Print Assumptions C06_generated_qos_atomic.
+
 (* Inc succeeds iff the limits admit the charge (limit 0 = none; otherwise current + charge <= limit),
    provided the charge does not wrap the counters ... *)
 Theorem C06_inc_admission : forall q c s,
